@@ -33,7 +33,7 @@ UNARY = {
 def vector_sets(n, field, kind, rank, tag):
     rng = np.random.default_rng([tag, n, rank, 99])
     A = rng.integers(-3, 4, (n, rank)).astype(float)
-    if field == "complex":
+    if field in ("complex", "real-complexL", "complex-realL"):
         A = A + 1j * rng.integers(-3, 4, (n, rank))
     while np.linalg.matrix_rank(A) < rank:
         A = A + np.eye(n)[:, :rank]
@@ -44,13 +44,26 @@ def vector_sets(n, field, kind, rank, tag):
         R, _ = np.linalg.qr(A)
         return R, R.copy()
     # biorthogonal: L† R = 1 with L != R
+    if field == "real-complexL":
+        A = A.real
     R = A
     Ldual = R @ np.linalg.inv(R.conj().T @ R)
     Z = rng.integers(-2, 3, (n, rank)).astype(float)
-    if field == "complex":
+    if field in ("complex", "real-complexL"):
         Z = Z + 1j * rng.integers(-2, 3, (n, rank))
+        if not np.abs(Z.imag).max():
+            Z = Z + 1j
     Z = Z - R @ np.linalg.solve(R.conj().T @ R, R.conj().T @ Z)  # Z ⟂ R:  R† Z = 0 => Z† R = 0
     L = Ldual + Z
+    if field == "complex-realL":
+        # complex R with a real dual: R = X + iY with real L such that L^T X = 1, L^T Y = 0
+        X = A.real
+        while np.linalg.matrix_rank(X) < rank:
+            X = X + np.eye(n)[:, :rank]
+        Lr = X @ np.linalg.inv(X.T @ X)
+        Y = A.imag - X @ (Lr.T @ A.imag)
+        Y = Y - Lr @ np.linalg.solve(Lr.T @ Lr, Lr.T @ Y)
+        R, L = X + 1j * Y, Lr.astype(float)
     assert np.allclose(L.conj().T @ R, np.eye(rank))
     return R, L
 
@@ -63,8 +76,10 @@ def cases(tier, seed):
     ns = (4,) if tier == "quick" else (4, 6)
     out = []
     for n in ns:
-        for field in ("real", "complex"):
+        for field in ("real", "complex", "real-complexL", "complex-realL"):
             for kind in ("orth", "orth_same", "biorth"):
+                if field in ("real-complexL", "complex-realL") and kind != "biorth":
+                    continue
                 for rank in (1, 2):
                     chains = [()] + [(a,) for a in UNARY] + list(itertools.product(UNARY, repeat=2))
                     if tier != "quick":
